@@ -20,6 +20,12 @@ CHECKS = {
  "C05": dict(cat="fault_enumeration", tech="exhaustive crash-point enumeration with monotonicity and reference-layout lower-bound oracles",
     text="The prefix sweep of C02 evaluated with: undamaged archive fully recovered with status EndOfOriginalArchiveData; r(n) <= r(n+1) for every adjacent pair of prefix lengths (implies all pairs); without compression, recovered bytes >= bytes present in the usable part of the stream computed from an independent block-stream layout (complete chunks only in authenticated mode). Plus ~6000 undamaged archives (all single-piece sizes x 3 entropies x levels, interleavings, program tree, many small entries) repaired at full length.",
     note="Scaled constants; production tier: windows plus a few undamaged archives of 4 MiB +- 1.", ref="3/C05"),
+ "C06": dict(cat="exploration", tech="bounded exhaustive differential testing against an independent implementation of FORMAT.md, both directions; all call-size compositions for the GCM core",
+    text="An independent codec written from FORMAT.md alone (own fixint bincode, x25519-dalek, hkdf, aes-gcm, brotli crates; nothing from mla) decodes every archive the real writer produces for the enumerated families (all single-piece sizes, program tree, 4 layer combos, levels, 1/3 recipients) and must find the model's files, valid EndOfFile hashes and a consistent index; the same programs encoded by the codec (own ids, footer order, keys) must be read identically by ArchiveReader and repair. Runs on the scaled build (thousands of chunk/block counts) and on build P with the constants written in FORMAT.md (131072 / 4194304) plus samples/archive_v1.mla. AesGcm256 incremental encrypt/decrypt equals aes-gcm one-shot for every composition of the message into calls (lengths <= 14/18) and every <=3-call split up to 64 bytes, 3 keys x 3 nonces x 4 AADs.",
+    note="The codec is validated only by agreement with the implementation in both directions and on the committed sample. Crypto/brotli crates trusted.", ref="3/C06"),
+ "C07": dict(cat="exploration", tech="all-pairs comparison over histories of archive creations (in-process and across processes); exhaustive marker-window search over a program family; every ordered candidate key list up to length 3",
+    text="Freshness: 64 (512) archives with identical inputs in one process + 8 processes x 8: all pairs differ in symmetric key, nonce, ephemeral key, wrapped key. No plaintext: every program of a bounded tree / every single-piece size (flush at every position for a subset), layers encrypt and both, noise contents and high-entropy names: no 8-byte window of content or name after the header. Recipients: 1..3 recipients x every ordered candidate list (length 0..3) over recipient and foreign keys: normal and fail-safe readers open iff a recipient key is present, and read the right content.",
+    note="Quality of the OS RNG out of scope (only repetition is decided).", ref="3/C07"),
  "C08": dict(cat="fault_enumeration", tech="exhaustive k<=1 (2,3) structured mutation enumeration with operation histories after an error, each input in an isolated worker process under catch_unwind, watchdog and counting allocator",
     text="20 base archives (5 programs x 4 layer combos). k=1 exhaustive on archive bytes (every truncation; every byte x {8 bit flips, 00, FF, +-1}); k=1 structured on the decoded streams re-encoded with valid compression and valid AES-GCM tags (every integer field of block headers, file index, sizes table and length words x 12 boundary values; every block delete/duplicate/swap; offsets list = N copies of a foreign offset up to 300000; trailing garbage; footer splice); k=2 all pairs of hostile operators; k=3 triples (thorough). On each input: open, list, read all files (7-byte reads), get_hash, linear_extract, repair in both modes, and after the first failing call every sequence of up to 2 (3) further calls on the same reader, then drop. Oracle: every call returns (no panic, abort, signal, 60 s watchdog per call) and peak heap <= 256 MiB + 64 x input.",
     note="Scaled constants; overflow checks on. Structured mutants are re-encrypted with the archive's own key by an independent implementation (equivalent to an attacker writing an archive for the victim's public key).", ref="3/C08"),
